@@ -1,8 +1,13 @@
 package main
 
 import (
+	"os"
+	"path/filepath"
 	"reflect"
+	"time"
 
+	"github.com/jotaen/klog/klog/app"
+	tf "github.com/jotaen/klog/klog/app/cli/terminalformat"
 	"github.com/jotaen/klog/klog/parser"
 )
 
@@ -27,6 +32,20 @@ func hParse(c M) M {
 		par = append(par, pm)
 	}
 	o["par"] = par
+	if boolean(c, "channels") {
+		dir, err := os.MkdirTemp("", "kdrive")
+		if err != nil {
+			panic(err)
+		}
+		defer os.RemoveAll(dir)
+		home := filepath.Join(dir, "home")
+		os.Mkdir(home, 0755)
+		file := filepath.Join(dir, "f.klg")
+		os.WriteFile(file, []byte(text), 0644)
+		fakeNow = time.Date(2020, 1, 1, 12, 0, 0, 0, caseLoc)
+		app.VerifNow = func() time.Time { return fakeNow }
+		channels(o, home, app.NewDefaultConfig(tf.COLOUR_THEME_NO_COLOUR), dir, file, text)
+	}
 	return o
 }
 
